@@ -88,8 +88,10 @@ structure Flags where
   parallel : Bool := false
   force : Bool := false
   forceAll : Bool := false
-  yes : Bool := false
+  yes : Bool := false            -- prompts pass: `--yes`, or a terminal whose answer is "y"
   maxCalls : Nat := 1000         -- `MaximumTaskCall` (from Gen.Codes)
+  promptErr : Bool := false      -- a prompt that does not pass ends with a READ ERROR (EOF on the
+                                 -- terminal), reported as a plain error, not with the 205 class
 deriving Repr, Inhabited
 
 inductive Kind
@@ -332,6 +334,10 @@ def altRes : Cmd → Res
   | .shell n ie d => if n ≥ 1000 then .ok else shellRes (.shell n ie d)
   | .call _ _ => .ok
 
+/-- what a prompt that does not pass ends the task with: the user's refusal or the missing
+terminal are the "cancelled" class 205; a read error on the terminal is a plain error -/
+def promptRes (F : Flags) : Res := if F.promptErr then .generic else .typed 205
+
 /-! ### the transition function -/
 
 /-- the activation a freshly entered label creates -/
@@ -450,7 +456,7 @@ def stepLocal (F : Flags) (o : Obs) (x : Act) (ev : Ev) : Option (Act × Eff) :=
     if x.def_.precondOk && x.def_.upToDate && !skipFingerprinting F x then some (x.stop .ok, .none) else none
   | .promptFail, .guards =>
     if x.def_.precondOk && x.def_.prompt && !F.yes && (skipFingerprinting F x || !x.def_.upToDate || o.cancelled ())
-    then some (x.stop (.typed 205), .none) else none
+    then some (x.stop (promptRes F), .none) else none
   | .guardsPassed, .guards =>
     if x.def_.precondOk && (!x.def_.prompt || F.yes) &&
        (skipFingerprinting F x || !x.def_.upToDate || o.cancelled ())
